@@ -166,6 +166,28 @@ CLAIMED = {
         note='Trusted: pest_meta/syn parse; the book; pest PrecClimber semantics. Two known findings (assert re-evaluation, set_default) in known_findings.json.',
         technique='static analysis: table agreement across grammar / syntax tree / book; per-path argument-evaluation order and must-evaluate analysis on native closures',
         design='2/C02'),
+    'C17': dict(
+        level='other',
+        text='Structural clauses decided for every site: values immutable after construction (type-closure audit, so every update returns a '
+             'new collection and earlier versions cannot change); each insertion of a new key is paired with exactly one len += 1 and an '
+             'overwrite with none, each removal rebuilds with len-1 after a Found match; the two locate routines have the same shape (hash, '
+             'to_u64 with out-of-bounds error, bucket scan with eq(probe, stored), Vacant/Missing/Found); no producer stores an empty bucket, '
+             'because hash() and the size model fold over all buckets (the producer/consumer agreement behind "equal collections hash '
+             'equally"). NOT decided: agreement with an association-list model under arbitrary consistent hash functions (value level).',
+        note='Trusted: syn parse, rustc MIR for the audit, borrow checking (no &mut through Rc).',
+        technique='static analysis: type-closure immutability audit on MIR; syntax-tree pairing rules; sibling-implementation cross-check',
+        design='2/C17'),
+    'C18': dict(
+        level='other',
+        text='Structural clauses decided for every site: every FencedString literal keeps buffer and code-point table consistent (no reuse of '
+             'the table over a re-encoded buffer; the case-mapping siblings agree); every native that calls substring/substr with an '
+             'argument-derived start tests it against the length first; byte offsets of &str/regex searches are converted to code-point counts '
+             'before being returned or used as indices; the escape table equals the book\'s list with validated \\u{..} scalars; raw strings '
+             'bypass unescaping while quoted and f-string text parts go through it. NOT decided: agreement of split/replace/strip/... (xray '
+             'stdlib text) with code-point semantics.',
+        note='Trusted: syn parse; the book (lang/string_literals.md).',
+        technique='static analysis: construction-site rules, guard-before-slice, unit (byte vs code point) discipline, table agreement with the book — on the syntax tree',
+        design='2/C18'),
 }
 
 NA_REASONS = {
